@@ -79,7 +79,7 @@ def load_known(prop):
 def violation_key(case, v):
     """role-based key: label / engine-kind / diagram / family flags (no seeds, no values)"""
     fam = []
-    for f in ("long_arcs", "depth_free", "bonus", "setnext", "perm"):
+    for f in ("long_arcs", "depth_free", "bonus", "setnext", "perm", "statewise"):
         if case.get(f, "0") not in ("0", ""):
             fam.append(f)
     parts = [v["label"], case.get("kind", "?"), case.get("dd", "-"), case.get("comp", case.get("solver", "-")), "+".join(fam) or "plain"]
